@@ -35,7 +35,8 @@ RULE = ("documents: AST grammar vf.gen.c19_docs (sections 1-6 with inline titles
         "[[ ]] [ ] text) at depth 1..4 (i mod 4); every document is checked whole (rt1, rt2), then up to 6 self-standing "
         "subtrees and 2 child lists of its tree are passed to node_to_wikitext directly; strings passed directly: random "
         "token strings over words and bracket runs, and ALL strings over {[,],a} up to length 7 (thorough: 8) and all strings "
-        "over {[,],a,|,blank} up to length 5 that contain | or a blank. non-trivial = distinct document whose tree has >= 3 "
+        "over {[,],a,|,blank} up to length 5 that contain | or a blank; lists of strings passed directly: each of those "
+        "strings cut in 2-3 pieces, and ALL 2-piece cuts of all strings over {[,],a} up to length 5. non-trivial = distinct document whose tree has >= 3 "
         "node kinds, or distinct string containing [[ or ]]")
 ASSUMPTIONS = [
     "attribute values are URL-safe ([A-Za-z0-9_.~-]) as the statement restricts; other values are not generated",
@@ -57,19 +58,20 @@ ASSUMPTIONS = [
 ]
 WALL = {"quick": 600, "thorough": 3000}
 
-COMPS = ["magic", "defn", "caption", "marker-args", "marker-pre", "bare-url", "quote-sep"]
+COMPS = ["magic", "defn", "caption", "marker-args", "marker-pre", "edge", "bare-url", "quote-sep"]
 MECH = {"magic": "MAGIC_WORD-emitted-on-a-line-of-its-own",
         "defn": "LIST_ITEM-definition-not-emitted",
         "caption": "TABLE_CAPTION-content-emitted-on-the-next-line",
         "marker-args": "bracket-protection-marker-kept-inside-brace-arguments",
         "marker-pre": "bracket-protection-marker-kept-inside-PRE",
+        "edge": "bracket-at-a-string-edge-pairs-with-the-adjacent-emitted-bracket",
         "bare-url": "bare-URL-emitted-in-brackets",
         "quote-sep": "quote-runs-of-adjacent-BOLD-ITALIC-nodes-merge"}
 
 
 def bare_able(node):
     a = node.largs
-    return len(a) == 1 and len(a[0]) == 1 and isinstance(a[0][0], str) and re.match(r"(https?|ftp)://[\w./~-]+$", a[0][0]) is not None
+    return len(a) == 1 and len(a[0]) == 1 and isinstance(a[0][0], str) and re.match(r"https?://[\w./~-]+$", a[0][0]) is not None
 
 
 def url_in_bracket_context(x, K):
@@ -99,6 +101,70 @@ def url_in_bracket_context(x, K):
                     out.add(id(c))
                 stack.append((c, il))
     return out
+
+
+def edge_marked(x, K, mutate=True):
+    """(copy of x, n): the protection marker added wherever a bracket at the edge of a string would pair up with
+    the bracket that the serialiser writes next to it -- a string ending in '[' in front of a LINK / URL node, a
+    string starting with ']' behind a URL node, a LINK argument that ends in ']' (or in a URL node) in front of the
+    closing ']]', two adjacent strings whose brackets meet.  n = number of such places (0: x itself is returned).
+    Brace arguments are left alone (the parser keeps the marker there).  Own code, used to NAME the mechanism."""
+    import copy
+    x2 = copy.deepcopy(x) if mutate else x
+    n = [0]
+    BR = (K.LINK, K.URL)
+
+    def fix_list(lst, closes_link=False):
+        for i in range(len(lst) - 1):
+            a, b = lst[i], lst[i + 1]
+            sa, sb = isinstance(a, str), isinstance(b, str)
+            if sa and sb:
+                if a and b and a[-1] == b[0] and a[-1] in "[]":
+                    if mutate:
+                        lst[i] = a + MARK
+                    n[0] += 1
+            elif sa and not sb:
+                if a.endswith("[") and b.kind in BR:
+                    if mutate:
+                        lst[i] = a + MARK
+                    n[0] += 1
+            elif sb and not sa:
+                if b.startswith("]") and a.kind == K.URL:
+                    if mutate:
+                        lst[i + 1] = MARK + b
+                    n[0] += 1
+        if closes_link and lst:
+            z = lst[-1]
+            if isinstance(z, str):
+                if z.endswith("]"):
+                    if mutate:
+                        lst[-1] = z + MARK
+                    n[0] += 1
+            elif z.kind == K.URL:
+                if mutate:
+                    lst.append(MARK)
+                n[0] += 1
+        for c in lst:
+            if not isinstance(c, str):
+                walk(c)
+
+    def walk(node):
+        fix_list(node.children)
+        if node.definition:
+            fix_list(node.definition)
+        if node.kind.name in BRACE:
+            return
+        for j, a in enumerate(node.largs):
+            fix_list(a, closes_link=(node.kind == K.LINK and j == len(node.largs) - 1))
+
+    if isinstance(x2, str):
+        return x, 0
+    if isinstance(x2, (list, tuple)):
+        x2 = list(x2) if mutate else x2
+        fix_list(x2)
+    else:
+        walk(x2)
+    return (x2, n[0]) if n[0] else (x, 0)
 
 
 def to_attrs_ref(node):
@@ -131,7 +197,12 @@ def floors(tier):
             "counters.lit.closer-only.in=LEVEL-arg": 70, "counters.lit.closer-only.in=TABLE_CAPTION": 10,
             "counters.lit.closer-only.in=HTML": 100, "counters.lit.closer-only.in=BOLD": 100,
             "counters.docs.with-protected-literal": 3000, "counters.docs.with-plit-in-link": 2000,
-            "counters.docs.with-plit-in-extlink": 700, "counters.docs.with-protected-literal-in-link-target": 150}
+            "counters.docs.with-plit-in-extlink": 700, "counters.docs.with-protected-literal-in-link-target": 150,
+            # brackets at the edge of a text, touching the bracket the serialiser writes next to it
+            "oracle.strlist": 5000, "counters.strlists.with-a-bracket-pair-across-pieces": 1000,
+            "counters.t1.brackets-at-string-edge-next-to-markup": 1000, "counters.docs.with-bracket-at-string-edge": 1000,
+            "counters.docs.with-label-ends-in-bracket-text": 100, "counters.docs.with-label-ends-in-extlink": 60,
+            "counters.docs.with-text-bracket-touching-link": 150}
 
 
 def shards(tier, seed):
@@ -259,13 +330,15 @@ class Monitor:
                                 and prev.kind in (K.BOLD, K.ITALIC):
                             app.add("quote-sep")
                     prev = c
+        if edge_marked(x, K, mutate=False)[1]:
+            app.add("edge")
         if brk and brace:
             app.add("marker-args")
         if brk and pre:
             app.add("marker-pre")
         return [c for c in COMPS if c in app]
 
-    def explain(self, x, w, whole):
+    def explain(self, x, w, whole, want_fn=None):
         """Smallest set of compensations (fixed order) under which x survives the round trip, or None.
         Compensations re-serialise x with node_handler_fn (the API's own hook) writing the suspected
         construct the way the input grammar writes it, or delete the protection marker where the
@@ -279,14 +352,17 @@ class Monitor:
             self.obs.count("explain.attempts")
             try:
                 with cpu_guard(30):
-                    w2 = self.ctx.node_to_wikitext(x, node_handler_fn=self.handler(comps, x))
+                    x2 = edge_marked(x, self.K)[0] if "edge" in comps else x
+                    w2 = self.ctx.node_to_wikitext(x2, node_handler_fn=self.handler(comps, x2))
                     t = self.parse(w2)
             except BaseException:
                 return False
             relax = tuple(c for c in comps if c.startswith("marker"))
             if "quote-sep" in comps:
                 relax += ("marker-args",)       # the separator itself is kept verbatim inside brace arguments
-            if whole:
+            if want_fn is not None:
+                a, b = want_fn(relax), N_node(t, relax)[4]
+            elif whole:
                 a, b = N_node(x, relax), N_node(t, relax)
             else:
                 a, b = N_list(x if isinstance(x, (list, tuple)) else [x], True, relax), N_node(t, relax)[4]
@@ -303,19 +379,23 @@ class Monitor:
                         return comps, None
             # what is left when every known mechanism is compensated names the unknown one
             return None, (first_diff(*residual) if residual else None)
-        for c in app:                      # 1-minimal subset, fixed order
-            if len(cur) == 1:
-                break
-            trial = tuple(y for y in cur if y != c)
-            if ok(trial):
-                cur = trial
+        changed = True
+        while changed and len(cur) > 1:    # 1-minimal subset, fixed order (repeated: a compensation can
+            changed = False                # turn out to be unnecessary once another one has been dropped)
+            for c in app:
+                if c not in cur or len(cur) == 1:
+                    continue
+                trial = tuple(y for y in cur if y != c)
+                if ok(trial):
+                    cur = trial
+                    changed = True
         return cur, None
 
-    def judge(self, P, rule, x, w, want, got, whole, where):
+    def judge(self, P, rule, x, w, want, got, whole, where, want_fn=None):
         """want/got: canonical forms.  Records nothing when equal."""
         if want == got:
             return
-        comps, residual = self.explain(x, w, whole)
+        comps, residual = self.explain(x, w, whole, want_fn)
         msg = "%s: w=%r want=%s got=%s" % (where, w[:300], str(want)[:400], str(got)[:400])
         if comps is not None:
             for c in comps:
@@ -352,6 +432,10 @@ class Monitor:
         if count:
             for key, v in literal_positions(t1).items():
                 obs.count(key, v)
+            ne = edge_marked(t1, self.K, mutate=False)[1]
+            if ne:
+                obs.count("t1.brackets-at-string-edge-next-to-markup", ne)
+                obs.count("docs.with-bracket-at-string-edge")
         info["w1"] = w1
         if count:
             obs.check("rt1")
@@ -422,6 +506,29 @@ class Monitor:
                        "child list of %s of text=%r" % (str(n)[:200], text[:200]))
         return probs, info
 
+    # -- a list of strings passed directly (the API accepts lists; node_handler_fn may return such lists)
+    def eval_strlist(self, parts, count=True):
+        """The text of the list is the concatenation of its strings: it must come back as that text."""
+        probs = []
+
+        def P(sig, msg):
+            if sig not in [p[0] for p in probs]:
+                probs.append((sig, msg))
+        try:
+            with cpu_guard(30):
+                w, got = self.direct(parts)
+        except CpuBudget as e:
+            return [("strlist:no-return-within-cpu-budget", str(e)[-400:])]
+        except Exception as e:
+            return [("strlist:raises:" + exc_sig(e), repr(e)[:300])]
+        if count:
+            self.obs.check("strlist")
+        whole = "".join(parts)
+        want = N_list([whole], True)
+        self.judge(P, "rt1", list(parts), w, want, got, False, "string list %r" % (parts,),
+                   want_fn=lambda relax: N_list([whole], True, relax))
+        return probs
+
     # -- one string passed directly
     def eval_string(self, s, count=True):
         try:
@@ -451,6 +558,13 @@ class Monitor:
         else:
             d = first_diff(want, got)
         return [("string:" + d, "s=%r w=%r got=%r" % (s, w, got))]
+
+
+def split_string(rng, s):
+    """s cut into 2 or 3 non-empty pieces."""
+    k = 2 if len(s) < 3 or rng.random() < 0.6 else 3
+    cuts = sorted(rng.sample(range(1, len(s)), k - 1))
+    return [s[a:b] for a, b in zip([0] + cuts, cuts + [len(s)])]
 
 
 def has_link(canon_list):
@@ -586,7 +700,8 @@ def run_shard(spec):
             obs.add("features", f)
         for f in ("literal-brackets", "list", "table", "deflist", "caption", "magic-word", "section", "template", "parserfn",
                   "protected-literal", "plit-in-link", "plit-in-extlink", "plit-in-cell", "plit-in-list-item",
-                  "plit-in-heading", "protected-literal-in-link-target"):
+                  "plit-in-heading", "protected-literal-in-link-target", "label-ends-in-bracket-text",
+                  "label-ends-in-extlink", "text-bracket-touching-link"):
             if f in feats:
                 obs.count("docs.with-" + f)
         if any(f.endswith("-attrs") for f in feats):
@@ -620,6 +735,27 @@ def run_shard(spec):
                 obs.violation(sig, msg, {"kind": "string", "s": s})
             else:
                 obs.violation(sig, msg, {"kind": "string", "s": s})
+    # lists of strings passed directly: every string above cut in 2-3 pieces at random places, plus ALL 2-piece
+    # cuts of all strings over {[,],a} up to length 5
+    lists = [split_string(rng, s) for _, s in strs if len(s) >= 2 and "\n" not in s]
+    j = 0
+    for L in range(2, 6):
+        for t in itertools.product("[]a", repeat=L):
+            for c in range(1, L):
+                if j % spec["nsh"] == spec["idx"]:
+                    lists.append(["".join(t[:c]), "".join(t[c:])])
+                j += 1
+    for parts in lists:
+        if not "".join(parts).strip() or parts[0][:1].isspace():
+            continue
+        probs = mon.eval_strlist(parts)
+        whole = "".join(parts)
+        obs.case("L:" + "\x00".join(parts), nontrivial=("[[" in whole or "]]" in whole), sample=None)
+        obs.count("strlists")
+        if any(a and b and a[-1] == b[0] and a[-1] in "[]" for a, b in zip(parts, parts[1:])):
+            obs.count("strlists.with-a-bracket-pair-across-pieces")
+        for sig, msg in probs:
+            obs.violation(sig, msg, {"kind": "strlist", "parts": parts})
     mon.close()
     obs.anchors.update(anchors.snapshot())
     return obs
@@ -629,6 +765,8 @@ def replay(case):
     obs = Obs()
     mon = Monitor(obs)
     try:
+        if case.get("kind") == "strlist":
+            return {"violations": mon.eval_strlist(case["parts"])}
         if case.get("kind") == "string":
             s = case["s"]
             probs = mon.eval_string(s)
